@@ -566,7 +566,21 @@ class BuiltinMixin(object):
     return out
 
   def b_is_fresh(self, st, args, kwargs):
+    """is_fresh(x): x was allocated during this activation (possibly by a callee).
+
+    When a callee's postcondition is *assumed*, its fresh objects live in a region of their own (one per call), so they
+    are distinct from everything the caller allocated or obtained from other calls."""
     v = args[0]
+    region = getattr(self, 'fresh_region', None)
+    if region is not None:
+      c = z3.And(v.t >= region, v.t < region + 100000)
+      if isinstance(v, VRef) and v.cls in ('dict', 'set'):
+        # a fresh dict comes with its own fresh (hidden) key list
+        kl = self.dict_keys(st, v).t
+        c = z3.And(c, kl >= region, kl < region + 100000, kl != v.t,
+                   z3.Function('keylist_owner', z3.IntSort(), z3.IntSort())(kl) == v.t,
+                   z3.Function('container_tag', z3.IntSort(), z3.IntSort())(kl) == -1)
+      return [(st, VBool(c))]
     return [(st, VBool(v.t >= ALLOC_BASE))]
 
   def b_iff(self, st, args, kwargs):
